@@ -233,6 +233,8 @@ func init() {
 			{Name: "readers", Race: true, QShards: 2, TShards: 4, Run: c12Readers},
 			{Name: "parallel", Race: true, Run: sequtilParallel("revcomp")},
 			firstCallUnit(firstSequtilRC),
+			firstParallelUnit(parSequtilRC),
+			reuseUnit(reuseRC),
 		},
 	})
 }
